@@ -67,6 +67,56 @@ def run_case(c):
             if SwitcherBaseResponse(v).successful != (v is not None and len(v) > 0):
                 return {"ok": False, "detail": "SwitcherBaseResponse.successful"}
         return {"ok": True, "evaluations": i["n"] + 4}
+    if k == "op_sequences":
+        # several operations on ONE api object inside ONE event loop (as an application does): every operation is judged exactly
+        # like a first operation, whatever happened before - a failed one included - and none may hang
+        import asyncio
+        rnd = random.Random(i["seed"])
+        n = 0
+        for j in range(i["n"]):
+            plan = []
+            for step in range(rnd.randrange(2, 6)):
+                op, kind = QUERIES[rnd.randrange(3)] if rnd.random() < 0.7 else TYPE2[rnd.randrange(2)]
+                R1 = rnd.choice([b"", bytes(rnd.randrange(256) for _ in range(44)), bytes(rnd.randrange(256) for _ in range(44))])
+                R2 = rnd.choice([b"", bytes(5), bytes(rnd.randrange(256) for _ in range(rnd.choice([60, 101, 120])))])
+                plan.append((op, kind, R1, R2))
+            for api_kind in (1, 2):
+                steps = [p_ for p_ in plan if p_[1] == api_kind]
+                if len(steps) < 2:
+                    continue
+                a = n_api.make(api_kind, bytes(3), b"\x00", [])
+
+                async def go():
+                    out = []
+                    for (op, kind, R1, R2) in steps:
+                        a._reader = n_api.FakeReader([R1, R2, b"ok", b"ok"])
+                        a._writer = n_api.FakeWriter()
+                        args = [50] if op == "set_position" else []
+                        try:
+                            with n_api.patched_time(1700000000):
+                                r = await asyncio.wait_for(getattr(a, op)(*args), 2)
+                            out.append(("ret", r, len(a._writer.log)))
+                        except asyncio.TimeoutError:
+                            out.append(("hang", None, len(a._writer.log)))
+                        except Exception as e:   # noqa: BLE001
+                            out.append(("exc", e, len(a._writer.log)))
+                    return out
+                res = asyncio.run(go())
+                for idx, ((op, kind, R1, R2), (kk, v, nw)) in enumerate(zip(steps, res)):
+                    n += 1
+                    bad = None
+                    if kk == "hang":
+                        bad = "the operation did not complete"
+                    elif (op, kind) in QUERIES and not (kk == "ret" or isinstance(v, RuntimeError)):
+                        bad = f"escaping {type(v).__name__}"
+                    elif (op, kind) in QUERIES and kk == "ret" and len(R2) == 0:
+                        bad = "returned a parsed response for an empty reply"
+                    elif len(R1) == 0 and not (kk == "exc" and isinstance(v, RuntimeError) and nw == 1):
+                        bad = f"empty login reply: {kk} {type(v).__name__ if kk == 'exc' else ''} after {nw} frame(s)"
+                    if bad:
+                        return {"ok": False, "evaluations": n, "detail": f"operation #{idx + 1} ({op}) of a sequence on one api object: {bad}",
+                                "outcome": [dict(op=o, login_reply_len=len(r1), reply_len=len(r2)) for (o, _, r1, r2) in steps[:idx + 1]]}
+        return {"ok": True, "evaluations": n}
     if k == "breeze_steps":
         # the four-step thermostat exchange with one step's reply empty: never reported as success
         from aioswitcher.api.remotes import SwitcherBreezeRemote
